@@ -651,7 +651,7 @@ fn c07() -> PropSpec {
         rule: "seeded random plans with short-term credentials (algorithm preconfigured to MI / SHA256 or left to be learned; server replies per request drawn from {valid MI, valid SHA256, both, none, corrupted MAC, MAC under another password, the non-agreed algorithm, duplicates} for success/error responses and indications; both transports; interleaved with timers and further requests); non-trivial = at least two replies reached the client; distinct = distinct sequence of (message class, MI verdict, SHA256 verdict, client reaction) x transport x initial algorithm",
         quick_runs: 1500000,
         thorough_runs: 30000000,
-        required_probes: &["short_term_algorithm_learned", "both_integrity_in_response", "time_out_reported_as_protection_violated", "protection_violated_immediately(reliable)", "indication_delivered", "indication_rejected", "fresh_request_delivered_after_faults_stopped"],
+        required_probes: &["short_term_algorithm_learned", "both_integrity_in_response", "time_out_reported_as_protection_violated", "protection_violated_immediately(reliable)", "indication_delivered", "indication_rejected", "fresh_request_delivered_after_faults_stopped", "more_than_ten_requests_marked_by_rejected_responses"],
         extra: None,
         run: None,
         assumptions: COMMON_ASSUMPTIONS,
